@@ -107,6 +107,8 @@ impl WriteFile {
         // 2.2.ERC->PT: Send over the file
         // The steps 2.1 and 2.2. may be repeated
         // 3.0 PT->ERC replies with Completion.
+        #[cfg(feature = "zvt_verif")]
+        use crate::verif_hook::std;
 
         let s = try_stream! {
             use super::packets::tlv::File as TlvFile;
